@@ -2661,6 +2661,14 @@ class VariableManager:
             var for var_name, var in self.variables.items() if var_name == name
         ]
         if matching_variables:
+            if n_type is not None and matching_variables[0].n_type != n_type:
+                # Variables are identified by their names; a second declaration with
+                # another type would silently get the type of the first one.
+                raise SyntaxError(
+                    f"Variable {name} is declared with different types "
+                    + f"({matching_variables[0].n_type} and {n_type})"
+                )
+
             return matching_variables[0]
 
         if constr is not None and n_type:
